@@ -898,3 +898,24 @@ Example history_example :
   [[0; 4096]; [0; 2097152]; [0; 1073741824]; [E_PARENT_HUGE]; [0; 8192; 4096]; [0; 2097152]; [0];
    [0; S2M; 4194304; 1; 131]; [E_NOT_MAPPED]; [2147483649; S1G; 2147483781; 0; 1]; [1056768]].
 Proof. vm_compute. reflexivity. Qed.
+
+(* tables that do not overlap the range (and the recursive slot) are untouched *)
+Lemma prune_children_untouched (P : list node -> Z -> list node * list Z) :
+  forall ch i base span rs re skip j,
+    ((base + (i + Z.of_nat j) * span + span - 1 <? rs) || (re <? base + (i + Z.of_nat j) * span)
+       || (i + Z.of_nat j =? skip))%bool = true ->
+    child (fst (prune_children P ch i base span rs re skip)) j = child ch j.
+Proof.
+  induction ch as [|n t IH]; intros i base span rs re skip j Hr.
+  - reflexivity.
+  - cbn [prune_children].
+    specialize (IH (i + 1) base span rs re skip).
+    destruct (prune_children P t (i + 1) base span rs re skip) as [t' fr2]. cbn [fst] in IH.
+    destruct j as [|j].
+    + replace (i + Z.of_nat 0) with i in Hr by lia.
+      destruct n as [|w|f0 fl0 sub0]; cbn [fst]; try reflexivity.
+      rewrite Hr. reflexivity.
+    + destruct (match n with Tab f0 fl0 sub0 => _ | _ => (n, []) end) as [n' fr1]. cbn [fst].
+      change (child (n' :: t') (S j)) with (child t' j). change (child (n :: t) (S j)) with (child t j).
+      apply IH. replace (i + 1 + Z.of_nat j) with (i + Z.of_nat (S j)) by lia. exact Hr.
+Qed.
